@@ -81,6 +81,9 @@ def check_exec(acc, job, ctrl, base, results, spec):
         acc.case(dict(case0, nb=None), nontrivial=False)
         acc.outcome('%s:raised-no-output' % spec['mech'])
         return
+    if getattr(base, 'input_mutation', None):
+        acc.violate(dict(case0, nb=None), {'kind': 'input-mutated', 'mech': spec['mech']},
+                    '%s %s on %s: %s (a later run on the same objects would see it)' % (spec['mech'], spec, job['ds'], base.input_mutation))
     err = conforms(base.out, job['sizes'])
     if err:
         acc.violate(dict(case0, nb=None), {'kind': 'domain', 'mech': spec['mech']}, '%s %s on %s: %s' % (spec['mech'], spec, job['ds'], err))
